@@ -11,6 +11,8 @@ for d in sorted(glob.glob('/verif/seeded/*/')):
     what=re.sub(r'\s+',' ',what)[:150]
     by=re.sub(r'\s+',' ',m.get('detected_by',''))
     by=re.sub(r'\[unknown\].*?(\||$)','|',by).strip('| ')[:170]
-    rows.append('| %s | %s | %s | %s |'%(name,what.replace('|','/'),'yes' if m.get('detected') else 'NO',by.replace('|',' ; ')))
+    det='yes' if m.get('detected') else 'NO'
+    if m.get('valid') is False: det='(invalid seed: existing tests fail with it)'
+    rows.append('| %s | %s | %s | %s |'%(name,what.replace('|','/'),det,by.replace('|',' ; ')))
 print('| seed | change (first line of the author\'s note) | detected | by (obligation) |\n|---|---|---|---|')
 print('\n'.join(rows))
